@@ -36,6 +36,18 @@ UNITS = [
          keep_bodies=["verif_c19_sps"], min_obligations=5, cover_functions=[], timeout=600, mem_gb=16,
          what="the sequence header is written with every key frame, whatever its decode order, once, before the metadata "
               "(also C02: 'sequence header at every key frame')"),
+    Unit(uid="U19.3.rps_key", prop="C19", harness=H, entry="h_rps", mode="plain", defines=["U19_RPS"],
+         functions=["av1_generate_rps_info", "set_key_frame_rps"], keep_bodies=["av1_generate_rps_info", "set_key_frame_rps"],
+         min_obligations=50, cover_functions=[], timeout=900, mem_gb=16, unwind=10,
+         what="a key frame (IDR I-slice) at every hierarchical depth 0..5: coded as KEY_FRAME, shown at once, never "
+              "re-shown, layer toggles restart at 0 (nothing before the key frame influences the reference rotation)"),
+    Unit(uid="U19.3.rps_type", prop="C19", harness=H, entry="h_rps_type", mode="plain", defines=["U19_RPS"],
+         functions=["av1_generate_rps_info"], keep_bodies=["av1_generate_rps_info", "set_key_frame_rps"],
+         checks=["--no-standard-checks"], min_obligations=2, cover_functions=[], timeout=900, mem_gb=16, unwind=10,
+         what="frame type of every picture: KEY iff IDR I-slice, INTRA_ONLY iff non-IDR I-slice, INTER otherwise; "
+              "intra_only == I slice (functional assertions only: the reference-list body runs from an arbitrary "
+              "context, so its memory-safety obligations are not generated in this unit)",
+         assumptions=["built-in bounds / pointer checks switched off for this unit (arbitrary decision context)"]),
 ]
 META = {"C19": {
     "level": "proof",
